@@ -26,18 +26,18 @@ theorem countNl_cons_ne_cr (c : Char) (r : Str) (h : c ≠ '\r') :
     countNl (c :: r) = (if c = '\n' then 1 else 0) + countNl r := by
   rw [countNl]
   · simp [h]
-  · intro r' hc; injection hc with h1 _; exact h h1
+  · intro r' hc _; exact h hc
 
 theorem countNl_cr_cons (c : Char) (r : Str) (h : c ≠ '\n') :
     countNl ('\r' :: c :: r) = 1 + countNl (c :: r) := by
   rw [countNl]
   · simp
-  · intro r' hc; injection hc with _ h2; injection h2 with h3 _; exact h h3
+  · intro r' _ hc; injection hc with h3 _; exact h h3
 
 theorem countNl_cr_nil : countNl ['\r'] = 1 := by
   rw [countNl]
   · simp [countNl]
-  · intro r' hc; injection hc with _ h2; cases h2
+  · intro r' _ hc; cases hc
 
 /-- a chunk without line-break characters does not change the count -/
 theorem countNl_append_plain (v r : Str) (h : ∀ c ∈ v, c ≠ '\n' ∧ c ≠ '\r') :
@@ -82,7 +82,7 @@ theorem countNl_append (a b : Str) (h : a.getLast? ≠ some '\r' ∨ b.head? ≠
           have hd : d ≠ '\n' := by simpa using hb
           simp only [List.cons_append, List.nil_append, countNl_cr_cons _ _ hd, countNl_cr_nil]
       | cons x r =>
-        have hx : x ≠ '\n' := fun hx => hne r (by rw [hx])
+        have hx : x ≠ '\n' := fun hx => hne r rfl (by rw [hx])
         have h' : (x :: r).getLast? ≠ some '\r' ∨ b.head? ≠ some '\n' := by
           rcases h with h | h
           · left; simpa [List.getLast?_cons_cons] using h
@@ -100,5 +100,1681 @@ theorem countNl_append (a b : Str) (h : a.getLast? ≠ some '\r' ∨ b.head? ≠
           | cons x r => left; simpa [List.getLast?_cons_cons] using h
         · exact Or.inr h
       simp only [List.cons_append, countNl_cons_ne_cr _ _ hc, ih h']; omega
+
+theorem skipToChar_spec {p : Char → Bool} {s chunk rest : Str}
+    (h : skipToChar p s = some (chunk, rest)) :
+    s = chunk ++ rest ∧ ∃ c, chunk.getLast? = some c ∧ p c = true := by
+  induction s generalizing chunk with
+  | nil => simp [skipToChar] at h
+  | cons c r ih =>
+    simp only [skipToChar] at h
+    split at h
+    · rename_i hp
+      injection h with h; injection h with h1 h2
+      subst h1; subst h2
+      exact ⟨rfl, c, rfl, hp⟩
+    · cases hr : skipToChar p r with
+      | none => simp [hr] at h
+      | some x =>
+        obtain ⟨x1, x2⟩ := x
+        simp only [hr, Option.map_some, Option.some.injEq, Prod.mk.injEq] at h
+        obtain ⟨h1, h2⟩ := h
+        subst h1; subst h2
+        obtain ⟨e, d, hd, hp⟩ := ih hr
+        refine ⟨by rw [e]; rfl, d, ?_, hp⟩
+        cases x1 with
+        | nil => simp at hd
+        | cons y ys => simpa [List.getLast?_cons_cons] using hd
+
+theorem skipToChar_none {p : Char → Bool} {s : Str} (h : skipToChar p s = none) :
+    ∀ c ∈ s, p c = false := by
+  induction s with
+  | nil => simp
+  | cons c r ih =>
+    simp only [skipToChar] at h
+    split at h
+    · cases h
+    · rename_i hp
+      cases hr : skipToChar p r with
+      | none =>
+        intro d hd
+        rcases List.mem_cons.1 hd with hd | hd
+        · subst hd; simpa using hp
+        · exact ih hr d hd
+      | some x => simp [hr] at h
+
+/-- what a consumed chunk does to the line bookkeeping -/
+theorem skipToChar_countNl {p : Char → Bool} {s chunk rest : Str}
+    (h : skipToChar p s = some (chunk, rest)) (hp : p '\r' = false) :
+    countNl s = countNl chunk + countNl rest ∧ rest.length < s.length := by
+  obtain ⟨e, c, hc, hpc⟩ := skipToChar_spec h
+  subst e
+  constructor
+  · apply countNl_append
+    left; rw [hc]; intro hcr
+    injection hcr with hcr; subst hcr; rw [hp] at hpc; cases hpc
+  · cases chunk with
+    | nil => simp at hc
+    | cons y ys => simp; omega
+
+theorem isWs_nl : isWs '\n' = true := by decide
+theorem isWs_cr : isWs '\r' = true := by decide
+
+theorem not_ws_plain {c : Char} (h : isWs c = false) : c ≠ '\n' ∧ c ≠ '\r' := by
+  constructor <;> (intro hc; subst hc; revert h; decide)
+
+theorem isNameStart_plain {c : Char} (h : isNameStart c = true) : c ≠ '\n' ∧ c ≠ '\r' := by
+  constructor <;> (intro hc; subst hc; revert h; decide)
+theorem isNameChar_plain {c : Char} (h : isNameChar c = true) : c ≠ '\n' ∧ c ≠ '\r' := by
+  constructor <;> (intro hc; subst hc; revert h; decide)
+theorem isDigit_plain {c : Char} (h : isDigit c = true) : c ≠ '\n' ∧ c ≠ '\r' := by
+  constructor <;> (intro hc; subst hc; revert h; decide)
+
+/-- the literal patterns the reader uses never match a line break -/
+def Pat.plain : Pat → Prop
+  | .lit c => c ≠ '\n' ∧ c ≠ '\r'
+  | _ => True
+
+theorem mem_takeWhile_imp {f : Char → Bool} {s : Str} {c : Char} (h : c ∈ s.takeWhile f) :
+    f c = true := by
+  induction s with
+  | nil => simp at h
+  | cons d r ih =>
+    simp only [List.takeWhile] at h
+    split at h
+    · rename_i hd
+      rcases List.mem_cons.1 h with h | h
+      · subst h; exact hd
+      · exact ih h
+    · simp at h
+
+theorem takeWhile_plain (f : Char → Bool) (hf : ∀ c, f c = true → c ≠ '\n' ∧ c ≠ '\r') (s : Str) :
+    ∀ c ∈ s.takeWhile f, c ≠ '\n' ∧ c ≠ '\r' := by
+  intro c hc
+  exact hf c (mem_takeWhile_imp hc)
+
+/-- a matched token is a non-empty prefix without line breaks -/
+theorem matchAt_spec {p : Pat} {s v r : Str} (hp : p.plain) (h : p.matchAt s = some (v, r)) :
+    s = v ++ r ∧ v ≠ [] ∧ ∀ c ∈ v, c ≠ '\n' ∧ c ≠ '\r' := by
+  cases p with
+  | name =>
+    cases s with
+    | nil => simp [Pat.matchAt] at h
+    | cons c t =>
+      simp only [Pat.matchAt] at h
+      split at h
+      · rename_i hc
+        simp only [Option.some.injEq, Prod.mk.injEq] at h
+        obtain ⟨h1, h2⟩ := h; subst h1; subst h2
+        refine ⟨by simp [List.takeWhile_append_dropWhile], by simp, ?_⟩
+        intro d hd
+        rcases List.mem_cons.1 hd with hd | hd
+        · subst hd; exact isNameStart_plain hc
+        · exact isNameChar_plain (mem_takeWhile_imp hd)
+      · cases h
+  | keyParen =>
+    simp only [Pat.matchAt] at h
+    split at h
+    · cases h
+    · rename_i hne
+      simp only [Option.some.injEq, Prod.mk.injEq] at h
+      obtain ⟨h1, h2⟩ := h; subst h1; subst h2
+      refine ⟨by simp [List.takeWhile_append_dropWhile], hne, ?_⟩
+      apply takeWhile_plain
+      intro c hc
+      apply not_ws_plain
+      simp only [Bool.and_eq_true, Bool.not_eq_true'] at hc
+      exact hc.1
+  | keyBrace =>
+    simp only [Pat.matchAt] at h
+    split at h
+    · cases h
+    · rename_i hne
+      simp only [Option.some.injEq, Prod.mk.injEq] at h
+      obtain ⟨h1, h2⟩ := h; subst h1; subst h2
+      refine ⟨by simp [List.takeWhile_append_dropWhile], hne, ?_⟩
+      apply takeWhile_plain
+      intro c hc
+      apply not_ws_plain
+      simp only [Bool.and_eq_true, Bool.not_eq_true'] at hc
+      exact hc.1.1
+  | number =>
+    simp only [Pat.matchAt] at h
+    split at h
+    · cases h
+    · rename_i hne
+      simp only [Option.some.injEq, Prod.mk.injEq] at h
+      obtain ⟨h1, h2⟩ := h; subst h1; subst h2
+      refine ⟨by simp [List.takeWhile_append_dropWhile], hne, ?_⟩
+      exact takeWhile_plain _ (fun c hc => isDigit_plain hc) _
+  | lit c =>
+    cases s with
+    | nil => simp [Pat.matchAt] at h
+    | cons d t =>
+      simp only [Pat.matchAt] at h
+      split at h
+      · rename_i hc
+        simp only [Option.some.injEq, Prod.mk.injEq] at h
+        obtain ⟨h1, h2⟩ := h; subst h1; subst h2; subst hc
+        refine ⟨rfl, by simp, ?_⟩
+        intro e he
+        simp only [List.mem_singleton] at he
+        subst he; exact hp
+      · cases h
+
+theorem firstMatch_spec {ps : List Pat} {s v r : Str} {p : Pat} (hp : ∀ q ∈ ps, q.plain)
+    (h : firstMatch ps s = some (p, v, r)) :
+    s = v ++ r ∧ v ≠ [] ∧ ∀ c ∈ v, c ≠ '\n' ∧ c ≠ '\r' := by
+  induction ps with
+  | nil => simp [firstMatch] at h
+  | cons q qs ih =>
+    simp only [firstMatch] at h
+    split at h
+    · rename_i v' r' hm
+      simp only [Option.some.injEq, Prod.mk.injEq] at h
+      obtain ⟨_, h1, h2⟩ := h; subst h1; subst h2
+      exact matchAt_spec (hp q (by simp)) hm
+    · exact ih (fun q' hq' => hp q' (List.mem_cons_of_mem _ hq')) h
+
+/-! ## §2 invariant and progress relation -/
+
+/-- the kinds of `PybtexSyntaxError` (they carry `lineno`) -/
+def synKind : ErrKind → Bool
+  | .tokenRequired _ | .prematureEOF | .tooManyBraces | .unbalancedBraces | .undefinedMacro _ => true
+  | _ => false
+
+/-- an acceptable error for a text with `N` lines: not `internal`; a syntax error is located -/
+def okErr (N : Nat) (e : Err) : Prop :=
+  e.kind ≠ .internal ∧ (synKind e.kind = true → ∃ l, e.line = some l ∧ 1 ≤ l ∧ l ≤ N)
+
+def okAbort (N : Nat) : Abort → Prop
+  | .syn e => okErr N e
+  | .raised e => okErr N e
+  | .skip => True
+
+/-- line counter in step with the text (`N` = 1 + line breaks of the whole text); errors so far acceptable -/
+def Inv (N : Nat) (s : St) : Prop :=
+  1 ≤ s.ln ∧ s.ln + countNl s.rest = N ∧ ∀ e ∈ s.errs, okErr N e
+
+/-- progress: input only shrinks, mode fixed, error list / entries / preamble only grow at the end -/
+def Le (s s' : St) : Prop :=
+  s'.rest.length ≤ s.rest.length ∧ s'.strict = s.strict ∧ s'.roles = s.roles ∧ s.errs <+: s'.errs ∧
+  s.db.entries <+: s'.db.entries ∧ s.db.preamble <+: s'.db.preamble
+
+theorem Le.refl (s : St) : Le s s :=
+  ⟨Nat.le_refl _, rfl, rfl, List.prefix_refl _, List.prefix_refl _, List.prefix_refl _⟩
+
+theorem Le.trans {a b c : St} (h1 : Le a b) (h2 : Le b c) : Le a c :=
+  ⟨Nat.le_trans h2.1 h1.1, h2.2.1.trans h1.2.1, h2.2.2.1.trans h1.2.2.1,
+   h1.2.2.2.1.trans h2.2.2.2.1, h1.2.2.2.2.1.trans h2.2.2.2.2.1, h1.2.2.2.2.2.trans h2.2.2.2.2.2⟩
+
+def Good {α : Type} (N : Nat) (s : St) : Res α → Prop
+  | .ok _ s' => Inv N s' ∧ Le s s'
+  | .fail a s' => Inv N s' ∧ Le s s' ∧ okAbort N a
+
+/-- like `Good`, and success consumed at least one character -/
+def GoodLt {α : Type} (N : Nat) (s : St) : Res α → Prop
+  | .ok _ s' => Inv N s' ∧ Le s s' ∧ s'.rest.length < s.rest.length
+  | .fail a s' => Inv N s' ∧ Le s s' ∧ okAbort N a
+
+/-- for optional tokens: a token that was found was consumed -/
+def GoodTok {α : Type} (N : Nat) (s : St) : Res (Option α) → Prop
+  | .ok none s' => Inv N s' ∧ Le s s'
+  | .ok (some _) s' => Inv N s' ∧ Le s s' ∧ s'.rest.length < s.rest.length
+  | .fail a s' => Inv N s' ∧ Le s s' ∧ okAbort N a
+
+theorem GoodLt.good {α : Type} {N : Nat} {s : St} {r : Res α} (h : GoodLt N s r) : Good N s r := by
+  cases r with
+  | ok a s' => exact ⟨h.1, h.2.1⟩
+  | fail a s' => exact h
+
+theorem okErr_ln {N : Nat} {s : St} (h : Inv N s) (k : ErrKind) (hk : k ≠ .internal) :
+    okErr N ⟨k, some s.ln⟩ :=
+  ⟨hk, fun _ => ⟨s.ln, rfl, h.1, by have := h.2.1; omega⟩⟩
+
+theorem okErr_data {N : Nat} (k : ErrKind) (hk : k ≠ .internal) (hs : synKind k = false) (l : Option Nat) :
+    okErr N ⟨k, l⟩ :=
+  ⟨hk, fun h => by simp [hs] at h⟩
+
+theorem dropWhile_ws_head (s : Str) : (s.dropWhile isWs).head? ≠ some '\n' := by
+  induction s with
+  | nil => simp
+  | cons c r ih =>
+    simp only [List.dropWhile]
+    split
+    · exact ih
+    · rename_i hc
+      simp only [List.head?_cons, ne_eq, Option.some.injEq]
+      intro h; subst h; rw [isWs_nl] at hc; cases hc
+
+theorem eatWs_good {N : Nat} {s : St} (h : Inv N s) : Inv N (eatWs s) ∧ Le s (eatWs s) := by
+  have e : s.rest = s.rest.takeWhile isWs ++ s.rest.dropWhile isWs :=
+    (List.takeWhile_append_dropWhile).symm
+  have hc := countNl_append (s.rest.takeWhile isWs) (s.rest.dropWhile isWs) (Or.inr (dropWhile_ws_head _))
+  rw [← e] at hc
+  have hl : (s.rest.dropWhile isWs).length ≤ s.rest.length := (List.dropWhile_sublist _).length_le
+  refine ⟨⟨?_, ?_, h.2.2⟩, hl, rfl, rfl, List.prefix_refl _, List.prefix_refl _, List.prefix_refl _⟩
+  · show 1 ≤ s.ln + _
+    have := h.1; omega
+  · show s.ln + _ + countNl (s.rest.dropWhile isWs) = N
+    have := h.2.1; omega
+
+theorem getToken_good {N : Nat} {s : St} (pats : List Pat) (h : Inv N s) (hp : ∀ q ∈ pats, q.plain) :
+    GoodTok N s (getToken pats s) := by
+  obtain ⟨hI, hL⟩ := eatWs_good h
+  unfold getToken
+  simp only
+  split
+  · exact ⟨hI, hL, okErr_ln hI _ (by simp)⟩
+  · split
+    · exact ⟨hI, hL⟩
+    · rename_i p v r hm
+      obtain ⟨e, hv, hplain⟩ := firstMatch_spec hp hm
+      have hc := countNl_append_plain v r hplain
+      rw [← e] at hc
+      have hlen : r.length < (eatWs s).rest.length := by
+        rw [e]; cases v with
+        | nil => exact absurd rfl hv
+        | cons y ys => simp; omega
+      refine ⟨⟨hI.1, ?_, hI.2.2⟩, ⟨?_, hL.2⟩, ?_⟩
+      · show (eatWs s).ln + countNl r = N
+        rw [← hc]; exact hI.2.1
+      · show r.length ≤ s.rest.length
+        have := hL.1; omega
+      · show r.length < s.rest.length
+        have := hL.1; omega
+
+theorem required_good {N : Nat} {s : St} (pats : List Pat) (desc : String) (h : Inv N s)
+    (hp : ∀ q ∈ pats, q.plain) : GoodLt N s (required pats desc s) := by
+  have hg := getToken_good pats h hp
+  unfold required
+  cases hr : getToken pats s with
+  | fail a s' => rw [hr] at hg; exact hg
+  | ok t s' =>
+    rw [hr] at hg
+    cases t with
+    | none => exact ⟨hg.1, hg.2, okErr_ln hg.1 _ (by simp)⟩
+    | some t => exact hg
+
+/-- consuming a `skipToChar` chunk keeps the invariant -/
+theorem chunk_good {N : Nat} {s : St} {p : Char → Bool} {chunk rest : Str} (h : Inv N s)
+    (hsk : skipToChar p s.rest = some (chunk, rest)) (hp : p '\r' = false) :
+    Inv N { s with rest := rest, ln := s.ln + countNl chunk } ∧
+    Le s { s with rest := rest, ln := s.ln + countNl chunk } ∧ rest.length < s.rest.length := by
+  obtain ⟨hc, hl⟩ := skipToChar_countNl hsk hp
+  refine ⟨⟨?_, ?_, h.2.2⟩, ⟨Nat.le_of_lt hl, rfl, rfl, List.prefix_refl _, List.prefix_refl _, List.prefix_refl _⟩, hl⟩
+  · show 1 ≤ s.ln + _
+    have := h.1; omega
+  · show s.ln + _ + countNl rest = N
+    have := h.2.1; omega
+
+theorem strLoop_good {N : Nat} (fuel : Nat) (quoted : Bool) (d : Nat) (acc : Str) (s : St)
+    (h : Inv N s) (hf : s.rest.length < fuel) : Good N s (strLoop fuel quoted d acc s) := by
+  induction fuel generalizing d acc s with
+  | zero => omega
+  | succ fuel ih =>
+    unfold strLoop
+    simp only
+    split
+    · exact ⟨h, Le.refl _, okErr_ln h _ (by simp)⟩
+    · rename_i chunk rest hsk
+      obtain ⟨hI, hL, hlt⟩ := chunk_good h hsk (by simp)
+      have hrec : ∀ d' acc', Good N s
+          (strLoop fuel quoted d' acc' { s with rest := rest, ln := s.ln + countNl chunk }) := by
+        intro d' acc'
+        have := ih d' acc' _ hI (by show rest.length < fuel; omega)
+        revert this
+        cases strLoop fuel quoted d' acc' { s with rest := rest, ln := s.ln + countNl chunk } with
+        | ok a s' => intro this; exact ⟨this.1, hL.trans this.2⟩
+        | fail a s' => intro this; exact ⟨this.1, hL.trans this.2.1, this.2.2⟩
+      split
+      · split
+        · exact ⟨hI, hL, okErr_ln hI _ (by simp)⟩
+        · exact hrec _ _
+      · split
+        · split
+          · exact ⟨hI, hL, okErr_ln hI _ (by simp)⟩
+          · exact ⟨hI, hL⟩
+        · exact hrec _ _
+      · exact ⟨hI, hL⟩
+
+theorem Good.trans {α : Type} {N : Nat} {s s1 : St} {r : Res α} (hL : Le s s1) (h : Good N s1 r) :
+    Good N s r := by
+  cases r with
+  | ok a s' => exact ⟨h.1, hL.trans h.2⟩
+  | fail a s' => exact ⟨h.1, hL.trans h.2.1, h.2.2⟩
+
+theorem GoodLt.trans {α : Type} {N : Nat} {s s1 : St} {r : Res α} (hL : Le s s1) (h : GoodLt N s1 r) :
+    GoodLt N s r := by
+  cases r with
+  | ok a s' => exact ⟨h.1, hL.trans h.2.1, by have := hL.1; have := h.2.2; omega⟩
+  | fail a s' => exact ⟨h.1, hL.trans h.2.1, h.2.2⟩
+
+/-- after a strict step, anything good is strictly good -/
+theorem Good.trans_lt {α : Type} {N : Nat} {s s1 : St} {r : Res α} (hL : Le s s1)
+    (hlt : s1.rest.length < s.rest.length) (h : Good N s1 r) : GoodLt N s r := by
+  cases r with
+  | ok a s' => exact ⟨h.1, hL.trans h.2, by have := h.2.1; omega⟩
+  | fail a s' => exact ⟨h.1, hL.trans h.2.1, h.2.2⟩
+
+theorem handleError_good {N : Nat} {s : St} {e : Err} (h : Inv N s) (he : okErr N e) :
+    Good N s (handleError s e) := by
+  unfold handleError
+  split
+  · exact ⟨h, Le.refl _, he⟩
+  · refine ⟨⟨h.1, h.2.1, ?_⟩, Nat.le_refl _, rfl, rfl, List.prefix_append _ _, List.prefix_refl _, List.prefix_refl _⟩
+    intro e' he'
+    rcases List.mem_append.1 he' with he' | he'
+    · exact h.2.2 e' he'
+    · simp only [List.mem_singleton] at he'; subst he'; exact he
+
+theorem substituteMacro_good {N : Nat} {s : St} (name : Str) (h : Inv N s) :
+    Good N s (substituteMacro name s) := by
+  unfold substituteMacro
+  split
+  · exact ⟨h, Le.refl _⟩
+  · split
+    · have hg := handleError_good h (okErr_ln h (.undefinedMacro name) (by simp))
+      cases hr : handleError s ⟨.undefinedMacro name, some s.ln⟩ with
+      | fail a s' => rw [hr] at hg; exact hg
+      | ok a s' => rw [hr] at hg; exact hg
+    · exact ⟨h, Le.refl _⟩
+
+theorem plain4 : ∀ q ∈ [Pat.lit '"', .lit '{', .number, .name], q.plain := by
+  intro q hq
+  simp only [List.mem_cons, List.not_mem_nil, or_false] at hq
+  rcases hq with rfl | rfl | rfl | rfl <;> simp [Pat.plain]
+
+theorem plainLit {c : Char} (h1 : c ≠ '\n') (h2 : c ≠ '\r') : ∀ q ∈ [Pat.lit c], q.plain := by
+  intro q hq
+  simp only [List.mem_singleton] at hq
+  subst hq; exact ⟨h1, h2⟩
+
+theorem plainName : ∀ q ∈ [Pat.name], q.plain := by
+  intro q hq
+  simp only [List.mem_singleton] at hq
+  subst hq; trivial
+
+theorem parseValuePart_good {N : Nat} {s : St} (h : Inv N s) : GoodLt N s (parseValuePart s) := by
+  have hg := required_good [.lit '"', .lit '{', .number, .name] "field value" h plain4
+  unfold parseValuePart
+  cases hr : required [.lit '"', .lit '{', .number, .name] "field value" s with
+  | fail a s' => rw [hr] at hg; exact hg
+  | ok t s1 =>
+    rw [hr] at hg
+    obtain ⟨p, v⟩ := t
+    obtain ⟨hI, hL, hlt⟩ := hg
+    simp only
+    have hstr : ∀ q, GoodLt N s (match strLoop (s1.rest.length + 1) q 0 [] s1 with
+        | .fail e s => .fail e s
+        | .ok str s => .ok str.dropLast s) := by
+      intro q
+      have := strLoop_good (s1.rest.length + 1) q 0 [] s1 hI (Nat.lt_succ_self _)
+      cases hs : strLoop (s1.rest.length + 1) q 0 [] s1 with
+      | fail a s' => rw [hs] at this; exact Good.trans_lt hL hlt (r := Res.fail a s') this
+      | ok a s' => rw [hs] at this; exact Good.trans_lt hL hlt (r := Res.ok a.dropLast s') this
+    split
+    · exact hstr true
+    · exact hstr false
+    · exact ⟨hI, hL, hlt⟩
+    · exact Good.trans_lt hL hlt (substituteMacro_good v hI)
+
+theorem GoodTok.trans {α : Type} {N : Nat} {s s1 : St} {r : Res (Option α)} (hL : Le s s1)
+    (h : GoodTok N s1 r) : GoodTok N s r := by
+  cases r with
+  | ok a s' =>
+    cases a with
+    | none => exact ⟨h.1, hL.trans h.2⟩
+    | some a => exact ⟨h.1, hL.trans h.2.1, by have := hL.1; have := h.2.2; omega⟩
+  | fail a s' => exact ⟨h.1, hL.trans h.2.1, h.2.2⟩
+
+theorem parseValueLoop_good {N : Nat} (fuel : Nat) (parts : List Str) (s : St)
+    (h : Inv N s) (hf : s.rest.length < fuel) : GoodLt N s (parseValueLoop fuel parts s) := by
+  induction fuel generalizing parts s with
+  | zero => omega
+  | succ fuel ih =>
+    unfold parseValueLoop
+    have hg := parseValuePart_good h
+    cases hr : parseValuePart s with
+    | fail a s' => rw [hr] at hg; exact hg
+    | ok part s1 =>
+      rw [hr] at hg
+      obtain ⟨hI, hL, hlt⟩ := hg
+      simp only
+      have hg2 := getToken_good [.lit '#'] hI (plainLit (by decide) (by decide))
+      cases hr2 : getToken [.lit '#'] s1 with
+      | fail a s' => rw [hr2] at hg2; exact ⟨hg2.1, hL.trans hg2.2.1, hg2.2.2⟩
+      | ok t s2 =>
+        rw [hr2] at hg2
+        cases t with
+        | none => exact ⟨hg2.1, hL.trans hg2.2, by have := hg2.2.1; omega⟩
+        | some t =>
+          simp only
+          have hL2 := hL.trans hg2.2.1
+          exact GoodLt.trans hL2 (ih _ s2 hg2.1 (by have := hg2.2.2; omega))
+
+theorem parseValue_good {N : Nat} {s : St} (h : Inv N s) : GoodLt N s (parseValue s) := by
+  unfold parseValue
+  have hg := parseValueLoop_good (s.rest.length + 1) [] s h (Nat.lt_succ_self _)
+  cases hr : parseValueLoop (s.rest.length + 1) [] s with
+  | fail a s' => rw [hr] at hg; exact hg
+  | ok parts s' => rw [hr] at hg; exact hg
+
+theorem parseField_good {N : Nat} {s : St} (h : Inv N s) : Good N s (parseField s) := by
+  unfold parseField
+  have hg := getToken_good [.name] h plainName
+  cases hr : getToken [.name] s with
+  | fail a s' => rw [hr] at hg; exact hg
+  | ok t s1 =>
+    rw [hr] at hg
+    cases t with
+    | none => exact hg
+    | some t =>
+      obtain ⟨_, name⟩ := t
+      simp only
+      have hI1 : Inv N { s1 with curFieldName := some name } := hg.1
+      have hL1 : Le s { s1 with curFieldName := some name } := hg.2.1
+      have hg2 := required_good [.lit '='] (descOf [.lit '=']) hI1 (plainLit (by decide) (by decide))
+      cases hr2 : required [.lit '='] (descOf [.lit '=']) { s1 with curFieldName := some name } with
+      | fail a s' => rw [hr2] at hg2; exact ⟨hg2.1, hL1.trans hg2.2.1, hg2.2.2⟩
+      | ok t2 s2 =>
+        rw [hr2] at hg2
+        simp only
+        exact Good.trans (hL1.trans hg2.2.1) (parseValue_good hg2.1).good
+
+theorem parseEntryFields_good {N : Nat} (fuel : Nat) (s : St)
+    (h : Inv N s) (hf : s.rest.length < fuel) : Good N s (parseEntryFields fuel s) := by
+  induction fuel generalizing s with
+  | zero => omega
+  | succ fuel ih =>
+    unfold parseEntryFields
+    simp only
+    have hI0 : Inv N { s with curFieldName := none, curValue := [] } := h
+    have hg := parseField_good hI0
+    cases hr : parseField { s with curFieldName := none, curValue := [] } with
+    | fail a s' => rw [hr] at hg; exact hg
+    | ok u s1 =>
+      rw [hr] at hg
+      simp only
+      have key : ∀ s1' : St, Inv N s1' ∧ Le s s1' → Good N s (match getToken [.lit ','] s1' with
+          | .fail e s => .fail e s
+          | .ok none s => .ok () s
+          | .ok (some _) s => parseEntryFields fuel s) := by
+        intro s1' hI1
+        have hg2 := getToken_good [.lit ','] hI1.1 (plainLit (by decide) (by decide))
+        cases hr2 : getToken [.lit ','] s1' with
+        | fail a s' => rw [hr2] at hg2; exact ⟨hg2.1, hI1.2.trans hg2.2.1, hg2.2.2⟩
+        | ok t s2 =>
+          rw [hr2] at hg2
+          cases t with
+          | none => exact ⟨hg2.1, hI1.2.trans hg2.2⟩
+          | some t =>
+            simp only
+            refine Good.trans (hI1.2.trans hg2.2.1) (ih s2 hg2.1 ?_)
+            have := hg2.2.2; have := hI1.2.1; omega
+      apply key
+      split
+      · split
+        · exact hg
+        · exact hg
+      · exact hg
+
+theorem parseEntryBody_good {N : Nat} {s : St} (paren : Bool) (h : Inv N s) :
+    Good N s (parseEntryBody paren s) := by
+  unfold parseEntryBody
+  have hp : ∀ q ∈ [if paren then Pat.keyParen else Pat.keyBrace], q.plain := by
+    intro q hq
+    simp only [List.mem_singleton] at hq
+    subst hq; cases paren <;> trivial
+  have hg := required_good [if paren then .keyParen else .keyBrace] "entry key" h hp
+  cases hr : required [if paren then .keyParen else .keyBrace] "entry key" s with
+  | fail a s' => rw [hr] at hg; exact hg
+  | ok t s1 =>
+    rw [hr] at hg
+    obtain ⟨_, key⟩ := t
+    simp only
+    have hI1 : Inv N { s1 with curKey := some key } := hg.1
+    have hL1 : Le s { s1 with curKey := some key } := hg.2.1
+    have hg2 := parseEntryFields_good (s1.rest.length + 2) { s1 with curKey := some key } hI1
+      (by show s1.rest.length < _; omega)
+    cases hr2 : parseEntryFields (s1.rest.length + 2) { s1 with curKey := some key } with
+    | fail a s' => rw [hr2] at hg2; exact ⟨hg2.1, hL1.trans hg2.2.1, hg2.2.2⟩
+    | ok u s2 =>
+      rw [hr2] at hg2
+      simp only
+      split
+      · exact ⟨hg2.1, hL1.trans hg2.2⟩
+      · exact ⟨hg2.1, hL1.trans hg2.2, trivial⟩
+
+theorem parseStringBody_good {N : Nat} {s : St} (h : Inv N s) : Good N s (parseStringBody s) := by
+  unfold parseStringBody
+  have hg := required_good [.name] (descOf [.name]) h plainName
+  cases hr : required [.name] (descOf [.name]) s with
+  | fail a s' => rw [hr] at hg; exact hg.good
+  | ok t s1 =>
+    rw [hr] at hg
+    obtain ⟨_, name⟩ := t
+    simp only
+    have hI1 : Inv N { s1 with curFieldName := some name } := hg.1
+    have hL1 : Le s { s1 with curFieldName := some name } := hg.2.1
+    have hg2 := required_good [.lit '='] (descOf [.lit '=']) hI1 (plainLit (by decide) (by decide))
+    cases hr2 : required [.lit '='] (descOf [.lit '=']) { s1 with curFieldName := some name } with
+    | fail a s' => rw [hr2] at hg2; exact ⟨hg2.1, hL1.trans hg2.2.1, hg2.2.2⟩
+    | ok t2 s2 =>
+      rw [hr2] at hg2
+      simp only
+      have hg3 := parseValue_good hg2.1
+      have hL2 := hL1.trans hg2.2.1
+      cases hr3 : parseValue s2 with
+      | fail a s' => rw [hr3] at hg3; exact ⟨hg3.1, hL2.trans hg3.2.1, hg3.2.2⟩
+      | ok u s3 => rw [hr3] at hg3; exact ⟨hg3.1, hL2.trans hg3.2.1⟩
+
+/-- `required([body_end])` after the body -/
+theorem afterBody_good {N : Nat} {s : St} (body : Res Unit) (hb : Good N s body) (bodyEnd : Pat)
+    (hp : bodyEnd.plain) :
+    Good N s (match body with
+      | .fail e s => .fail e s
+      | .ok _ s =>
+        match required [bodyEnd] (descOf [bodyEnd]) s with
+        | .fail e s => .fail e s
+        | .ok _ s => (.ok () s : Res Unit)) := by
+  cases body with
+  | fail a s' => exact hb
+  | ok u s1 =>
+    simp only
+    have hpl : ∀ q ∈ [bodyEnd], q.plain := by
+      intro q hq; simp only [List.mem_singleton] at hq; subst hq; exact hp
+    have hg := required_good [bodyEnd] (descOf [bodyEnd]) hb.1 hpl
+    cases hr : required [bodyEnd] (descOf [bodyEnd]) s1 with
+    | fail a s' => rw [hr] at hg; exact ⟨hg.1, hb.2.trans hg.2.1, hg.2.2⟩
+    | ok t s2 => rw [hr] at hg; exact ⟨hg.1, hb.2.trans hg.2.1⟩
+
+/-- the `except PybtexSyntaxError: handle_error` of `parse_command` and `make_result()` -/
+theorem finish_good {N : Nat} {s : St} (ab : Res Unit) (h : Good N s ab) (mk : St → Cmd) :
+    Good N s (match ab with
+      | .ok _ s => .ok (mk s) s
+      | .fail (.syn e) s =>
+        match handleError s e with
+        | .fail a s => .fail a s
+        | .ok _ s => .ok (mk s) s
+      | .fail a s => .fail a s) := by
+  cases ab with
+  | ok u s1 => exact h
+  | fail a s1 =>
+    cases a with
+    | syn e =>
+      simp only
+      have hg := handleError_good h.1 h.2.2
+      cases hr : handleError s1 e with
+      | fail a s' => rw [hr] at hg; exact ⟨hg.1, h.2.1.trans hg.2.1, hg.2.2⟩
+      | ok u s' => rw [hr] at hg; exact ⟨hg.1, h.2.1.trans hg.2⟩
+    | skip => exact h
+    | raised e => exact h
+
+theorem parseCommand_good {N : Nat} {s : St} (h : Inv N s) : Good N s (parseCommand s) := by
+  unfold parseCommand
+  simp only
+  have hI0 : Inv N { s with curKey := none, curFields := [], curFieldName := none, curValue := [] } := h
+  have hg := required_good [.name] (descOf [.name]) hI0 plainName
+  cases hr : required [.name] (descOf [.name])
+      { s with curKey := none, curFields := [], curFieldName := none, curValue := [] } with
+  | fail a s' => rw [hr] at hg; exact hg.good
+  | ok t s1 =>
+    rw [hr] at hg
+    obtain ⟨_, command⟩ := t
+    simp only
+    have hpl : ∀ q ∈ [Pat.lit '(', Pat.lit '{'], q.plain := by
+      intro q hq
+      simp only [List.mem_cons, List.not_mem_nil, or_false] at hq
+      rcases hq with rfl | rfl <;> simp [Pat.plain]
+    have hL1 : Le s s1 := hg.2.1
+    have hg2 := required_good [.lit '(', .lit '{'] (descOf [.lit '(', .lit '{']) hg.1 hpl
+    cases hr2 : required [.lit '(', .lit '{'] (descOf [.lit '(', .lit '{']) s1 with
+    | fail a s' => rw [hr2] at hg2; exact ⟨hg2.1, hL1.trans hg2.2.1, hg2.2.2⟩
+    | ok t2 s2 =>
+      rw [hr2] at hg2
+      obtain ⟨open_, _⟩ := t2
+      simp only
+      have hL2 := hL1.trans hg2.2.1
+      split
+      · exact ⟨hg2.1, hL2, trivial⟩
+      · apply Good.trans hL2
+        apply finish_good
+        apply afterBody_good
+        · split
+          · exact parseStringBody_good hg2.1
+          · exact (parseValue_good hg2.1).good
+          · exact parseEntryBody_good _ hg2.1
+        · split <;> simp [Pat.plain]
+
+theorem addEntry_good {N : Nat} {s : St} (key : Str) (e : Entry) (h : Inv N s) :
+    Good N s (addEntry s key e) := by
+  unfold addEntry
+  split
+  · exact ⟨h, Le.refl _⟩
+  · split
+    · exact handleError_good h (okErr_data _ (by simp) rfl _)
+    · simp only
+      refine ⟨h, Nat.le_refl _, rfl, rfl, List.prefix_refl _, ?_, ?_⟩
+      · split <;> exact List.prefix_append _ _
+      · split <;> exact List.prefix_refl _
+
+theorem addPersons_good {N : Nat} (role : Str) (ns : List Str) (e : Entry) (s : St) (h : Inv N s) :
+    Good N s (addPersons role ns e s) := by
+  induction ns generalizing e s with
+  | nil => exact ⟨h, Le.refl _⟩
+  | cons n ns ih =>
+    unfold addPersons
+    split
+    · exact ⟨h, Le.refl _, okErr_data _ (by simp) rfl _⟩
+    · rename_i p tooMany _
+      simp only
+      have hg : Good N s (if tooMany then handleError s ⟨.invalidName (strip n), none⟩ else .ok () s) := by
+        split
+        · exact handleError_good h (okErr_data _ (by simp) rfl _)
+        · exact ⟨h, Le.refl _⟩
+      cases hr : (if tooMany then handleError s ⟨.invalidName (strip n), none⟩ else .ok () s) with
+      | fail a s' => rw [hr] at hg; exact hg
+      | ok u s1 =>
+        rw [hr] at hg
+        exact Good.trans hg.2 (ih _ s1 hg.1)
+
+theorem processFields_good {N : Nat} (key : Str) (fs : List (Str × List Str)) (seen : List Str)
+    (e : Entry) (s : St) (h : Inv N s) : Good N s (processFields key fs seen e s) := by
+  induction fs generalizing seen e s with
+  | nil => exact ⟨h, Le.refl _⟩
+  | cons f fs ih =>
+    obtain ⟨name, parts⟩ := f
+    unfold processFields
+    split
+    · have hg := handleError_good h (okErr_data (N := N) (.duplicateField key name) (by simp) rfl none)
+      cases hr : handleError s ⟨.duplicateField key name, none⟩ with
+      | fail a s' => rw [hr] at hg; exact hg
+      | ok u s1 => rw [hr] at hg; exact Good.trans hg.2 (ih _ _ s1 hg.1)
+    · simp only
+      split
+      · have hg := addPersons_good (N := N) name (splitNameList (normalizeWs parts.flatten)) e s h
+        cases hr : addPersons name (splitNameList (normalizeWs parts.flatten)) e s with
+        | fail a s' => rw [hr] at hg; exact hg
+        | ok e' s1 => rw [hr] at hg; exact Good.trans hg.2 (ih _ _ s1 hg.1)
+      · exact ih _ _ s h
+
+theorem processEntry_good {N : Nat} (type : Str) (key : Option Str) (fields : List (Str × List Str))
+    (s : St) (h : Inv N s) : Good N s (processEntry type key fields s) := by
+  unfold processEntry
+  cases key with
+  | some k =>
+    simp only
+    have hg := processFields_good (N := N) k fields []
+      { key := k, type := lower type, origType := type, fields := [], persons := [] } s h
+    cases hr : processFields k fields []
+      { key := k, type := lower type, origType := type, fields := [], persons := [] } s with
+    | fail a s' => rw [hr] at hg; exact hg
+    | ok e s1 => rw [hr] at hg; exact Good.trans hg.2 (addEntry_good _ _ hg.1)
+  | none =>
+    simp only
+    have hI0 : Inv N { s with unnamed := s.unnamed + 1 } := h
+    have hg := processFields_good (N := N) ("unnamed-".toList ++ natToStr s.unnamed) fields []
+      { key := "unnamed-".toList ++ natToStr s.unnamed, type := lower type, origType := type, fields := [], persons := [] }
+      { s with unnamed := s.unnamed + 1 } hI0
+    cases hr : processFields ("unnamed-".toList ++ natToStr s.unnamed) fields []
+      { key := "unnamed-".toList ++ natToStr s.unnamed, type := lower type, origType := type, fields := [], persons := [] }
+      { s with unnamed := s.unnamed + 1 } with
+    | fail a s' => rw [hr] at hg; exact hg
+    | ok e s1 =>
+      rw [hr] at hg
+      have hL : Le s s1 := hg.2
+      exact Good.trans hL (addEntry_good _ _ hg.1)
+
+theorem processCmd_good {N : Nat} (c : Cmd) (s : St) (h : Inv N s) : Good N s (processCmd c s) := by
+  unfold processCmd
+  split
+  · exact ⟨h, Le.refl _⟩
+  · exact ⟨h, Nat.le_refl _, rfl, rfl, List.prefix_refl _, List.prefix_refl _, List.prefix_append _ _⟩
+  · exact processEntry_good _ _ _ s h
+
+/-! ## §3 the command loop -/
+
+def GoodEnd (N : Nat) (s : St) (r : St × Option Err) : Prop :=
+  Inv N r.1 ∧ Le s r.1 ∧ (∀ e, r.2 = some e → okErr N e) ∧ (r.2 = none → ∀ c ∈ r.1.rest, c ≠ '@')
+
+theorem GoodEnd.trans {N : Nat} {s s1 : St} {r : St × Option Err} (hL : Le s s1) (h : GoodEnd N s1 r) :
+    GoodEnd N s r := ⟨h.1, hL.trans h.2.1, h.2.2⟩
+
+theorem GoodEnd.stop {N : Nat} {s s' : St} {e : Err} (hI : Inv N s') (hL : Le s s') (he : okErr N e) :
+    GoodEnd N s (s', some e) :=
+  ⟨hI, hL, fun e' he' => by cases he'; exact he, fun h => by cases h⟩
+
+theorem parseLoop_good {N : Nat} (fuel : Nat) (s : St) (h : Inv N s) (hf : s.rest.length < fuel) :
+    GoodEnd N s (parseLoop fuel s) := by
+  induction fuel generalizing s with
+  | zero => omega
+  | succ fuel ih =>
+    unfold parseLoop
+    split
+    · rename_i hsk
+      refine ⟨h, Le.refl _, (fun e he => by cases he), fun _ c hc => ?_⟩
+      have := skipToChar_none hsk c hc
+      simpa using this
+    · rename_i chunk rest hsk
+      obtain ⟨hI, hL, hlt⟩ := chunk_good h hsk (by decide)
+      simp only
+      apply GoodEnd.trans hL
+      have hfuel : ∀ s' : St, Le { s with rest := rest, ln := s.ln + countNl chunk } s' →
+          s'.rest.length < fuel := by
+        intro s' hs'
+        have h1 := hs'.1
+        have h2 : rest.length < s.rest.length := hlt
+        have h3 : ({ s with rest := rest, ln := s.ln + countNl chunk } : St).rest.length = rest.length := rfl
+        omega
+      have hg := parseCommand_good hI
+      cases hr : parseCommand { s with rest := rest, ln := s.ln + countNl chunk } with
+      | ok c s2 =>
+        rw [hr] at hg
+        simp only
+        have hg2 := processCmd_good c s2 hg.1
+        cases hr2 : processCmd c s2 with
+        | ok u s3 =>
+          rw [hr2] at hg2
+          exact GoodEnd.trans (hg.2.trans hg2.2) (ih s3 hg2.1 (hfuel _ (hg.2.trans hg2.2)))
+        | fail a s3 =>
+          rw [hr2] at hg2
+          cases a with
+          | syn e => exact GoodEnd.stop hg2.1 (hg.2.trans hg2.2.1) hg2.2.2
+          | raised e => exact GoodEnd.stop hg2.1 (hg.2.trans hg2.2.1) hg2.2.2
+          | skip => exact GoodEnd.trans (hg.2.trans hg2.2.1) (ih s3 hg2.1 (hfuel _ (hg.2.trans hg2.2.1)))
+      | fail a s2 =>
+        rw [hr] at hg
+        cases a with
+        | syn e =>
+          simp only
+          have hg2 := handleError_good hg.1 hg.2.2
+          cases hr2 : handleError s2 e with
+          | ok u s3 =>
+            rw [hr2] at hg2
+            exact GoodEnd.trans (hg.2.1.trans hg2.2) (ih s3 hg2.1 (hfuel _ (hg.2.1.trans hg2.2)))
+          | fail a s3 =>
+            rw [hr2] at hg2
+            cases a with
+            | raised e' => exact GoodEnd.stop hg2.1 (hg.2.1.trans hg2.2.1) hg2.2.2
+            | syn e' => exact GoodEnd.stop hg2.1 (hg.2.1.trans hg2.2.1) hg.2.2
+            | skip => exact GoodEnd.stop hg2.1 (hg.2.1.trans hg2.2.1) hg.2.2
+        | skip => exact GoodEnd.trans hg.2.1 (ih s2 hg.1 (hfuel _ hg.2.1))
+        | raised e => exact GoodEnd.stop hg.1 (hg.2.1) hg.2.2
+
+/-- the initial state of `parseBib` -/
+def initSt (text : Str) (strict : Bool) (wanted : Option (List Str)) (macros0 : List (Str × Str))
+    (roles : List Str) : St :=
+  { rest := text, macros := CIDict.ofPairs macros0,
+    db := (match wanted with
+      | none => {}
+      | some w => { wanted := some (CISet.ofList w), citations := CISet.ofList w }),
+    strict := strict, roles := roles }
+
+theorem parseBib_eq (text : Str) (strict : Bool) (wanted : Option (List Str)) (macros0 : List (Str × Str))
+    (roles : List Str) :
+    parseBib text strict wanted macros0 roles =
+      parseLoop (text.length + 1) (initSt text strict wanted macros0 roles) := rfl
+
+theorem initSt_inv (text : Str) (strict : Bool) (wanted : Option (List Str)) (macros0 : List (Str × Str))
+    (roles : List Str) : Inv (1 + countNl text) (initSt text strict wanted macros0 roles) :=
+  ⟨Nat.le_refl _, rfl, fun e he => by cases he⟩
+
+theorem parseBib_good (text : Str) (strict : Bool) (wanted : Option (List Str)) (macros0 : List (Str × Str))
+    (roles : List Str) :
+    GoodEnd (1 + countNl text) (initSt text strict wanted macros0 roles)
+      (parseBib text strict wanted macros0 roles) := by
+  rw [parseBib_eq]
+  exact parseLoop_good _ _ (initSt_inv ..) (Nat.lt_succ_self _)
+
+/-! ## §4 strict mode = continue mode cut at the first error -/
+
+@[reducible] def setStrict (s : St) : St := { s with strict := true }
+
+def Res.st {α : Type} : Res α → St
+  | .ok _ s => s
+  | .fail _ s => s
+
+def Res.mapSt {α : Type} (f : St → St) : Res α → Res α
+  | .ok a s => .ok a (f s)
+  | .fail e s => .fail e (f s)
+
+/-- continue mode raises nothing (but for the `BibTeXError` of `Person()`, which is not routed
+through `handle_error`) -/
+def NRa : Abort → Prop
+  | .raised e => e = ⟨.nameTooDeep, none⟩
+  | _ => True
+
+def NR {α : Type} : Res α → Prop
+  | .fail a _ => NRa a
+  | .ok _ _ => True
+
+/-- `r` = result in continue mode from `s`, `r'` = result in strict mode from the same state:
+either nothing was reported and the results agree, or the strict run raised the first new error -/
+def Sim {α : Type} (s : St) (r r' : Res α) : Prop :=
+  NR r ∧ ((r.st.errs = s.errs ∧ r' = r.mapSt setStrict) ∨
+          (∃ e tl s', r.st.errs = s.errs ++ e :: tl ∧ r' = .fail (.raised e) s'))
+
+/-- sequencing: `C` is the context `match · with | .fail e s => .fail e s | .ok a s => …` of the model -/
+theorem Sim.bind {α β : Type} {s : St} {r r' : Res α} {C : Res α → Res β}
+    (h : Sim s r r')
+    (hfail : ∀ a s1, C (.fail a s1) = .fail a s1)
+    (hok : ∀ x s1, r = .ok x s1 → Sim s1 (C (.ok x s1)) (C (.ok x (setStrict s1)))) :
+    Sim s (C r) (C r') := by
+  obtain ⟨hn, h⟩ := h
+  cases r with
+  | ok a s1 =>
+    obtain ⟨hn1, h1⟩ := hok a s1 rfl
+    simp only [Res.st] at h
+    rcases h with ⟨he, hr'⟩ | ⟨e, tl, s', he, hr'⟩
+    · subst hr'
+      simp only [Res.mapSt]
+      rw [he] at h1
+      exact ⟨hn1, h1⟩
+    · subst hr'
+      rw [hfail]
+      refine ⟨hn1, Or.inr ⟨e, ?_⟩⟩
+      rcases h1 with ⟨h1, _⟩ | ⟨e2, tl2, _, h1, _⟩
+      · exact ⟨tl, s', by simp only [h1, he], rfl⟩
+      · exact ⟨tl ++ e2 :: tl2, s', by simp only [h1, he, List.append_assoc, List.cons_append], rfl⟩
+  | fail a s1 =>
+    simp only [Res.st] at h
+    rcases h with ⟨he, hr'⟩ | ⟨e, tl, s', he, hr'⟩
+    · subst hr'
+      simp only [Res.mapSt, hfail]
+      exact ⟨hn, Or.inl ⟨he, rfl⟩⟩
+    · subst hr'
+      simp only [hfail]
+      exact ⟨hn, Or.inr ⟨e, tl, s', he, rfl⟩⟩
+
+/-- `Sim.bind` in the shape that lets the context `C` be found by unification -/
+theorem Sim.bind' {α β : Type} {s : St} {C : Res α → Res β} {P : Res α → Prop}
+    (hfail : ∀ a s1, C (.fail a s1) = .fail a s1)
+    (hok : ∀ x s1, P (.ok x s1) → Sim s1 (C (.ok x s1)) (C (.ok x (setStrict s1)))) :
+    ∀ r, P r → ∀ r', Sim s r r' → Sim s (C r) (C r') := by
+  intro r hP r' h
+  exact Sim.bind h hfail (fun x s1 hx => hok x s1 (hx ▸ hP))
+
+/-- `sim_bind h, t, t'`: `h : Sim s t t'`, goal `Sim s (match t with …) (match t' with …)` where
+failures are passed on; leaves the goal for the `.ok` continuation. -/
+macro "sim_bind " h:term ", " t:term ", " t':term : tactic => `(tactic| (
+  have hsim := $h
+  generalize hr : $t = r at hsim ⊢
+  generalize $t' = r' at hsim ⊢
+  revert r r'
+  refine Sim.bind' ?_ ?_
+  · intro _ _; rfl))
+
+/-- a step that never reports: same result in both modes -/
+theorem Sim.of_eq {α : Type} {s : St} {r r' : Res α} (hn : NR r) (he : r.st.errs = s.errs)
+    (hr : r' = r.mapSt setStrict) : Sim s r r' := ⟨hn, Or.inl ⟨he, hr⟩⟩
+
+theorem handleError_sim {s : St} (e : Err) (hs : s.strict = false) :
+    Sim s (handleError s e) (handleError (setStrict s) e) := by
+  unfold handleError
+  simp only [hs, setStrict]
+  exact ⟨trivial, Or.inr ⟨e, [], _, rfl, rfl⟩⟩
+
+theorem eatWs_strict (s : St) : eatWs (setStrict s) = setStrict (eatWs s) := rfl
+
+theorem getToken_sim (pats : List Pat) (s : St) :
+    getToken pats (setStrict s) = (getToken pats s).mapSt setStrict ∧
+    (getToken pats s).st.errs = s.errs ∧ NR (getToken pats s) := by
+  unfold getToken
+  simp only
+  by_cases h : (eatWs s).rest = []
+  · have h' : (eatWs (setStrict s)).rest = [] := h
+    rw [if_pos h, if_pos h']
+    exact ⟨rfl, rfl, trivial⟩
+  · have h' : ¬ (eatWs (setStrict s)).rest = [] := h
+    rw [if_neg h, if_neg h']
+    have h2 : (eatWs (setStrict s)).rest = (eatWs s).rest := rfl
+    rw [h2]
+    split <;> exact ⟨rfl, rfl, trivial⟩
+
+theorem required_sim (pats : List Pat) (desc : String) (s : St) :
+    required pats desc (setStrict s) = (required pats desc s).mapSt setStrict ∧
+    (required pats desc s).st.errs = s.errs ∧ NR (required pats desc s) := by
+  obtain ⟨h1, h2, h3⟩ := getToken_sim pats s
+  unfold required
+  rw [h1]
+  cases hr : getToken pats s with
+  | fail a s' => rw [hr] at h2 h3; exact ⟨rfl, h2, h3⟩
+  | ok t s' =>
+    rw [hr] at h2
+    cases t with
+    | none => exact ⟨rfl, h2, trivial⟩
+    | some t => exact ⟨rfl, h2, trivial⟩
+
+theorem strLoop_sim (fuel : Nat) (quoted : Bool) (d : Nat) (acc : Str) (s : St) :
+    strLoop fuel quoted d acc (setStrict s) = (strLoop fuel quoted d acc s).mapSt setStrict ∧
+    (strLoop fuel quoted d acc s).st.errs = s.errs ∧ NR (strLoop fuel quoted d acc s) := by
+  induction fuel generalizing d acc s with
+  | zero => exact ⟨rfl, rfl, trivial⟩
+  | succ fuel ih =>
+    unfold strLoop
+    simp only
+    have h1 : (setStrict s).rest = s.rest := rfl
+    rw [h1]
+    split
+    · exact ⟨rfl, rfl, trivial⟩
+    · rename_i chunk rest hsk
+      split
+      · split
+        · exact ⟨rfl, rfl, trivial⟩
+        · exact ih _ _ { s with rest := rest, ln := s.ln + countNl chunk }
+      · split
+        · split
+          · exact ⟨rfl, rfl, trivial⟩
+          · exact ⟨rfl, rfl, trivial⟩
+        · exact ih _ _ { s with rest := rest, ln := s.ln + countNl chunk }
+      · exact ⟨rfl, rfl, trivial⟩
+
+theorem Sim.ok {α : Type} (a : α) (s : St) : Sim s (Res.ok a s) (Res.ok a (setStrict s)) :=
+  ⟨trivial, Or.inl ⟨rfl, rfl⟩⟩
+
+theorem Sim.fail {α : Type} (a : Abort) (s : St) (h : NRa a) :
+    Sim s (Res.fail a s : Res α) (Res.fail a (setStrict s)) :=
+  ⟨h, Or.inl ⟨rfl, rfl⟩⟩
+
+theorem substituteMacro_sim {s : St} (name : Str) (hs : s.strict = false) :
+    Sim s (substituteMacro name s) (substituteMacro name (setStrict s)) := by
+  unfold substituteMacro
+  have h2 : wantCurrent (setStrict s) = wantCurrent s := rfl
+  simp only [h2]
+  split
+  · exact Sim.ok _ _
+  · split
+    · sim_bind handleError_sim ⟨.undefinedMacro name, some s.ln⟩ hs,
+        handleError s ⟨.undefinedMacro name, some s.ln⟩,
+        handleError (setStrict s) ⟨.undefinedMacro name, some s.ln⟩
+      intro a s1 _
+      exact Sim.ok _ _
+    · exact Sim.ok _ _
+
+theorem getToken_Sim (pats : List Pat) (s : St) :
+    Sim s (getToken pats s) (getToken pats (setStrict s)) :=
+  have h := getToken_sim pats s
+  Sim.of_eq h.2.2 h.2.1 h.1
+
+theorem required_Sim (pats : List Pat) (desc : String) (s : St) :
+    Sim s (required pats desc s) (required pats desc (setStrict s)) :=
+  have h := required_sim pats desc s
+  Sim.of_eq h.2.2 h.2.1 h.1
+
+theorem strLoop_Sim (fuel : Nat) (quoted : Bool) (d : Nat) (acc : Str) (s : St) :
+    Sim s (strLoop fuel quoted d acc s) (strLoop fuel quoted d acc (setStrict s)) :=
+  have h := strLoop_sim fuel quoted d acc s
+  Sim.of_eq h.2.2 h.2.1 h.1
+
+theorem Le.strict_false {s s1 : St} (h : Le s s1) (hs : s.strict = false) : s1.strict = false :=
+  h.2.1.trans hs
+
+theorem parseValuePart_sim {N : Nat} {s : St} (hI : Inv N s) (hs : s.strict = false) :
+    Sim s (parseValuePart s) (parseValuePart (setStrict s)) := by
+  unfold parseValuePart
+  sim_bind required_Sim [.lit '"', .lit '{', .number, .name] "field value" s,
+    required [.lit '"', .lit '{', .number, .name] "field value" s,
+    required [.lit '"', .lit '{', .number, .name] "field value" (setStrict s)
+  intro x s1 hr
+  have hg := required_good [.lit '"', .lit '{', .number, .name] "field value" hI plain4
+  rw [hr] at hg
+  obtain ⟨p, v⟩ := x
+  simp only
+  split
+  · sim_bind strLoop_Sim (s1.rest.length + 1) true 0 [] s1,
+      strLoop (s1.rest.length + 1) true 0 [] s1, strLoop (s1.rest.length + 1) true 0 [] (setStrict s1)
+    intro x s2 _
+    exact Sim.ok _ _
+  · sim_bind strLoop_Sim (s1.rest.length + 1) false 0 [] s1,
+      strLoop (s1.rest.length + 1) false 0 [] s1, strLoop (s1.rest.length + 1) false 0 [] (setStrict s1)
+    intro x s2 _
+    exact Sim.ok _ _
+  · exact Sim.ok _ _
+  · exact substituteMacro_sim v (hg.2.1.strict_false hs)
+
+theorem parseValueLoop_sim {N : Nat} (fuel : Nat) (parts : List Str) (s : St) (hI : Inv N s)
+    (hs : s.strict = false) :
+    Sim s (parseValueLoop fuel parts s) (parseValueLoop fuel parts (setStrict s)) := by
+  induction fuel generalizing parts s with
+  | zero => exact Sim.fail _ _ trivial
+  | succ fuel ih =>
+    unfold parseValueLoop
+    sim_bind parseValuePart_sim hI hs, parseValuePart s, parseValuePart (setStrict s)
+    intro part s1 hr
+    have hg := parseValuePart_good hI
+    rw [hr] at hg
+    have hs1 := hg.2.1.strict_false hs
+    simp only
+    sim_bind getToken_Sim [.lit '#'] s1, getToken [.lit '#'] s1, getToken [.lit '#'] (setStrict s1)
+    intro t s2 hr2
+    have hg2 := getToken_good [.lit '#'] hg.1 (plainLit (by decide) (by decide))
+    rw [hr2] at hg2
+    cases t with
+    | none => exact Sim.ok _ _
+    | some t => exact ih _ s2 hg2.1 (hg2.2.1.strict_false hs1)
+
+theorem parseValue_sim {N : Nat} {s : St} (hI : Inv N s) (hs : s.strict = false) :
+    Sim s (parseValue s) (parseValue (setStrict s)) := by
+  unfold parseValue
+  simp only
+  sim_bind parseValueLoop_sim (s.rest.length + 1) [] s hI hs,
+    parseValueLoop (s.rest.length + 1) [] s, parseValueLoop (s.rest.length + 1) [] (setStrict s)
+  intro parts s1 _
+  exact Sim.ok _ _
+
+theorem parseField_sim {N : Nat} {s : St} (hI : Inv N s) (hs : s.strict = false) :
+    Sim s (parseField s) (parseField (setStrict s)) := by
+  unfold parseField
+  sim_bind getToken_Sim [.name] s, getToken [.name] s, getToken [.name] (setStrict s)
+  intro t s1 hr
+  have hg := getToken_good [.name] hI plainName
+  rw [hr] at hg
+  cases t with
+  | none => exact Sim.ok _ _
+  | some t =>
+    obtain ⟨_, name⟩ := t
+    simp only
+    have hI1 : Inv N { s1 with curFieldName := some name } := hg.1
+    have hs1 : ({ s1 with curFieldName := some name } : St).strict = false := hg.2.1.strict_false hs
+    sim_bind (required_Sim [.lit '='] (descOf [.lit '=']) { s1 with curFieldName := some name } :
+        Sim s1 _ _),
+      required [.lit '='] (descOf [.lit '=']) { s1 with curFieldName := some name },
+      required [.lit '='] (descOf [.lit '=']) (setStrict { s1 with curFieldName := some name })
+    intro t2 s2 hr2
+    have hg2 := required_good [.lit '='] (descOf [.lit '=']) hI1 (plainLit (by decide) (by decide))
+    rw [hr2] at hg2
+    exact parseValue_sim hg2.1 (hg2.2.1.strict_false hs1)
+
+theorem Sim.of_errs {α : Type} {s s0 : St} {r r' : Res α} (h : Sim s0 r r') (he : s0.errs = s.errs) :
+    Sim s r r' := by
+  unfold Sim at h ⊢
+  rw [← he]; exact h
+
+theorem parseEntryFields_sim {N : Nat} (fuel : Nat) (s : St) (hI : Inv N s) (hs : s.strict = false) :
+    Sim s (parseEntryFields fuel s) (parseEntryFields fuel (setStrict s)) := by
+  induction fuel generalizing s with
+  | zero => exact Sim.fail _ _ trivial
+  | succ fuel ih =>
+    unfold parseEntryFields
+    simp only
+    have hI0 : Inv N { s with curFieldName := none, curValue := [] } := hI
+    have hs0 : ({ s with curFieldName := none, curValue := [] } : St).strict = false := hs
+    sim_bind (parseField_sim (s := { s with curFieldName := none, curValue := [] }) hI0 hs0 : Sim s _ _),
+      parseField { s with curFieldName := none, curValue := [] },
+      parseField (setStrict { s with curFieldName := none, curValue := [] })
+    intro u s1 hr
+    have hg := parseField_good hI0
+    rw [hr] at hg
+    have hs1 : s1.strict = false := hg.2.strict_false hs0
+    simp only
+    have key : ∀ s1' : St, Inv N s1' → s1'.strict = false → s1'.errs = s1.errs →
+        Sim s1 (match getToken [.lit ','] s1' with
+          | .fail e s => .fail e s
+          | .ok none s => .ok () s
+          | .ok (some _) s => parseEntryFields fuel s)
+        (match getToken [.lit ','] (setStrict s1') with
+          | .fail e s => .fail e s
+          | .ok none s => .ok () s
+          | .ok (some _) s => parseEntryFields fuel s) := by
+      intro s1' hI1 hs1' he1
+      apply Sim.of_errs (s0 := s1') _ he1
+      sim_bind getToken_Sim [.lit ','] s1', getToken [.lit ','] s1', getToken [.lit ','] (setStrict s1')
+      intro t s2 hr2
+      have hg2 := getToken_good [.lit ','] hI1 (plainLit (by decide) (by decide))
+      rw [hr2] at hg2
+      cases t with
+      | none => exact Sim.ok _ _
+      | some t => exact ih s2 hg2.1 (hg2.2.1.strict_false hs1')
+    cases hc : s1.curFieldName with
+    | none => exact key s1 hg.1 hs1 rfl
+    | some n =>
+      simp only
+      by_cases hn : n ≠ [] ∧ s1.curValue ≠ []
+      · rw [if_pos hn, if_pos hn]
+        exact key _ hg.1 hs1 rfl
+      · rw [if_neg hn, if_neg hn]
+        exact key s1 hg.1 hs1 rfl
+
+theorem parseEntryBody_sim {N : Nat} {s : St} (paren : Bool) (hI : Inv N s) (hs : s.strict = false) :
+    Sim s (parseEntryBody paren s) (parseEntryBody paren (setStrict s)) := by
+  unfold parseEntryBody
+  have hp : ∀ q ∈ [if paren then Pat.keyParen else Pat.keyBrace], q.plain := by
+    intro q hq
+    simp only [List.mem_singleton] at hq
+    subst hq; cases paren <;> trivial
+  sim_bind required_Sim [if paren then .keyParen else .keyBrace] "entry key" s,
+    required [if paren then .keyParen else .keyBrace] "entry key" s,
+    required [if paren then .keyParen else .keyBrace] "entry key" (setStrict s)
+  intro t s1 hr
+  have hg := required_good [if paren then .keyParen else .keyBrace] "entry key" hI hp
+  rw [hr] at hg
+  obtain ⟨_, key⟩ := t
+  simp only
+  have hI1 : Inv N { s1 with curKey := some key } := hg.1
+  have hs1 : ({ s1 with curKey := some key } : St).strict = false := hg.2.1.strict_false hs
+  sim_bind (parseEntryFields_sim (s1.rest.length + 2) { s1 with curKey := some key } hI1 hs1 : Sim s1 _ _),
+    parseEntryFields (s1.rest.length + 2) { s1 with curKey := some key },
+    parseEntryFields (s1.rest.length + 2) (setStrict { s1 with curKey := some key })
+  intro u s2 _
+  have h2 : wantCurrent (setStrict s2) = wantCurrent s2 := rfl
+  simp only [h2]
+  split
+  · exact Sim.ok _ _
+  · exact Sim.fail _ _ trivial
+
+theorem parseStringBody_sim {N : Nat} {s : St} (hI : Inv N s) (hs : s.strict = false) :
+    Sim s (parseStringBody s) (parseStringBody (setStrict s)) := by
+  unfold parseStringBody
+  sim_bind required_Sim [.name] (descOf [.name]) s,
+    required [.name] (descOf [.name]) s, required [.name] (descOf [.name]) (setStrict s)
+  intro t s1 hr
+  have hg := required_good [.name] (descOf [.name]) hI plainName
+  rw [hr] at hg
+  obtain ⟨_, name⟩ := t
+  simp only
+  have hI1 : Inv N { s1 with curFieldName := some name } := hg.1
+  have hs1 : ({ s1 with curFieldName := some name } : St).strict = false := hg.2.1.strict_false hs
+  sim_bind (required_Sim [.lit '='] (descOf [.lit '=']) { s1 with curFieldName := some name } :
+      Sim s1 _ _),
+    required [.lit '='] (descOf [.lit '=']) { s1 with curFieldName := some name },
+    required [.lit '='] (descOf [.lit '=']) (setStrict { s1 with curFieldName := some name })
+  intro t2 s2 hr2
+  have hg2 := required_good [.lit '='] (descOf [.lit '=']) hI1 (plainLit (by decide) (by decide))
+  rw [hr2] at hg2
+  simp only
+  sim_bind parseValue_sim hg2.1 (hg2.2.1.strict_false hs1), parseValue s2, parseValue (setStrict s2)
+  intro u s3 _
+  exact Sim.ok _ _
+
+theorem afterBody_sim {s : St} (body body' : Res Unit) (bodyEnd : Pat) :
+    Sim s body body' →
+    Sim s (match body with
+      | .fail e s => .fail e s
+      | .ok _ s =>
+        match required [bodyEnd] (descOf [bodyEnd]) s with
+        | .fail e s => .fail e s
+        | .ok _ s => (.ok () s : Res Unit))
+     (match body' with
+      | .fail e s => .fail e s
+      | .ok _ s =>
+        match required [bodyEnd] (descOf [bodyEnd]) s with
+        | .fail e s => .fail e s
+        | .ok _ s => (.ok () s : Res Unit)) := by
+  intro h
+  refine Sim.bind (C := fun r => match r with
+      | .fail e s => .fail e s
+      | .ok _ s =>
+        match required [bodyEnd] (descOf [bodyEnd]) s with
+        | .fail e s => .fail e s
+        | .ok _ s => (.ok () s : Res Unit)) h (fun _ _ => rfl) ?_
+  intro u s1 _
+  simp only
+  sim_bind required_Sim [bodyEnd] (descOf [bodyEnd]) s1,
+    required [bodyEnd] (descOf [bodyEnd]) s1, required [bodyEnd] (descOf [bodyEnd]) (setStrict s1)
+  intro t s2 _
+  exact Sim.ok _ _
+
+theorem finish_sim {N : Nat} {s : St} (ab ab' : Res Unit)
+    (hs : s.strict = false) (mk : St → Cmd) (hmk : ∀ s, mk (setStrict s) = mk s) :
+    Sim s ab ab' → Good N s ab →
+    Sim s (match ab with
+      | .ok _ s => .ok (mk s) s
+      | .fail (.syn e) s =>
+        match handleError s e with
+        | .fail a s => .fail a s
+        | .ok _ s => .ok (mk s) s
+      | .fail a s => .fail a s)
+     (match ab' with
+      | .ok _ s => .ok (mk s) s
+      | .fail (.syn e) s =>
+        match handleError s e with
+        | .fail a s => .fail a s
+        | .ok _ s => .ok (mk s) s
+      | .fail a s => .fail a s) := by
+  intro h hg
+  obtain ⟨hn, h⟩ := h
+  cases ab with
+  | ok u s1 =>
+    simp only [Res.st] at h
+    rcases h with ⟨he, rfl⟩ | ⟨e, tl, s', he, rfl⟩
+    · simp only [Res.mapSt, hmk]
+      exact (Sim.ok _ _).of_errs he
+    · exact ⟨trivial, Or.inr ⟨e, tl, s', he, rfl⟩⟩
+  | fail a s1 =>
+    have hs1 : s1.strict = false := hg.2.1.strict_false hs
+    simp only [Res.st] at h
+    cases a with
+    | syn e0 =>
+      have hne : handleError s1 e0 = .ok () { s1 with errs := s1.errs ++ [e0] } := by
+        simp [handleError, hs1]
+      rcases h with ⟨he, rfl⟩ | ⟨e, tl, s', he, rfl⟩
+      · have hst : handleError (setStrict s1) e0 = .fail (.raised e0) (setStrict s1) := by
+          simp [handleError]
+        simp only [Res.mapSt, hne, hst]
+        exact ⟨trivial, Or.inr ⟨e0, [], _, by simp [Res.st, he], rfl⟩⟩
+      · simp only [hne]
+        exact ⟨trivial, Or.inr ⟨e, tl ++ [e0], s', by simp [Res.st, he], rfl⟩⟩
+    | skip =>
+      rcases h with ⟨he, rfl⟩ | ⟨e, tl, s', he, rfl⟩
+      · exact ⟨trivial, Or.inl ⟨he, rfl⟩⟩
+      · exact ⟨trivial, Or.inr ⟨e, tl, s', he, rfl⟩⟩
+    | raised x =>
+      rcases h with ⟨he, rfl⟩ | ⟨e, tl, s', he, rfl⟩
+      · exact ⟨hn, Or.inl ⟨he, rfl⟩⟩
+      · exact ⟨hn, Or.inr ⟨e, tl, s', he, rfl⟩⟩
+
+theorem parseCommand_sim {N : Nat} {s : St} (hI : Inv N s) (hs : s.strict = false) :
+    Sim s (parseCommand s) (parseCommand (setStrict s)) := by
+  unfold parseCommand
+  simp only
+  have hI0 : Inv N { s with curKey := none, curFields := [], curFieldName := none, curValue := [] } := hI
+  sim_bind (required_Sim [.name] (descOf [.name])
+      { s with curKey := none, curFields := [], curFieldName := none, curValue := [] } : Sim s _ _),
+    required [.name] (descOf [.name])
+      { s with curKey := none, curFields := [], curFieldName := none, curValue := [] },
+    required [.name] (descOf [.name])
+      (setStrict { s with curKey := none, curFields := [], curFieldName := none, curValue := [] })
+  intro t s1 hr
+  have hg := required_good [.name] (descOf [.name]) hI0 plainName
+  rw [hr] at hg
+  have hs1 : s1.strict = false := hg.2.1.strict_false hs
+  obtain ⟨_, command⟩ := t
+  simp only
+  have hpl : ∀ q ∈ [Pat.lit '(', Pat.lit '{'], q.plain := by
+    intro q hq
+    simp only [List.mem_cons, List.not_mem_nil, or_false] at hq
+    rcases hq with rfl | rfl <;> simp [Pat.plain]
+  sim_bind required_Sim [.lit '(', .lit '{'] (descOf [.lit '(', .lit '{']) s1,
+    required [.lit '(', .lit '{'] (descOf [.lit '(', .lit '{']) s1,
+    required [.lit '(', .lit '{'] (descOf [.lit '(', .lit '{']) (setStrict s1)
+  intro t2 s2 hr2
+  have hg2 := required_good [.lit '(', .lit '{'] (descOf [.lit '(', .lit '{']) hg.1 hpl
+  rw [hr2] at hg2
+  have hs2 : s2.strict = false := hg2.2.1.strict_false hs1
+  obtain ⟨open_, _⟩ := t2
+  simp only
+  split
+  · exact Sim.fail _ _ trivial
+  · apply finish_sim (N := N) _ _ hs2
+    · intro s; split <;> rfl
+    · apply afterBody_sim
+      split
+      · exact parseStringBody_sim hg2.1 hs2
+      · exact parseValue_sim hg2.1 hs2
+      · exact parseEntryBody_sim _ hg2.1 hs2
+    · apply afterBody_good
+      · split
+        · exact parseStringBody_good hg2.1
+        · exact (parseValue_good hg2.1).good
+        · exact parseEntryBody_good _ hg2.1
+      · split <;> simp [Pat.plain]
+
+theorem addEntry_sim {s : St} (key : Str) (e : Entry) (hs : s.strict = false) :
+    Sim s (addEntry s key e) (addEntry (setStrict s) key e) := by
+  unfold addEntry
+  simp only
+  split
+  · exact Sim.ok _ _
+  · split
+    · exact handleError_sim _ hs
+    · exact Sim.ok _ _
+
+theorem addPersons_sim {N : Nat} (role : Str) (ns : List Str) (e : Entry) (s : St) (hI : Inv N s)
+    (hs : s.strict = false) :
+    Sim s (addPersons role ns e s) (addPersons role ns e (setStrict s)) := by
+  induction ns generalizing e s with
+  | nil => exact Sim.ok _ _
+  | cons n ns ih =>
+    unfold addPersons
+    split
+    · exact Sim.fail _ _ rfl
+    · rename_i p tooMany _
+      simp only
+      have h : Sim s (if tooMany then handleError s ⟨.invalidName (strip n), none⟩ else .ok () s)
+          (if tooMany then handleError (setStrict s) ⟨.invalidName (strip n), none⟩ else .ok () (setStrict s)) := by
+        split
+        · exact handleError_sim _ hs
+        · exact Sim.ok _ _
+      have hg : Good N s (if tooMany then handleError s ⟨.invalidName (strip n), none⟩ else .ok () s) := by
+        split
+        · exact handleError_good hI (okErr_data _ (by simp) rfl _)
+        · exact ⟨hI, Le.refl _⟩
+      sim_bind h, (if tooMany then handleError s ⟨.invalidName (strip n), none⟩ else Res.ok () s),
+        (if tooMany then handleError (setStrict s) ⟨.invalidName (strip n), none⟩ else Res.ok () (setStrict s))
+      intro u s1 hr
+      rw [hr] at hg
+      exact ih _ s1 hg.1 (hg.2.strict_false hs)
+
+theorem processFields_sim {N : Nat} (key : Str) (fs : List (Str × List Str)) (seen : List Str)
+    (e : Entry) (s : St) (hI : Inv N s) (hs : s.strict = false) :
+    Sim s (processFields key fs seen e s) (processFields key fs seen e (setStrict s)) := by
+  induction fs generalizing seen e s with
+  | nil => exact Sim.ok _ _
+  | cons f fs ih =>
+    obtain ⟨name, parts⟩ := f
+    unfold processFields
+    split
+    · sim_bind handleError_sim ⟨.duplicateField key name, none⟩ hs,
+        handleError s ⟨.duplicateField key name, none⟩,
+        handleError (setStrict s) ⟨.duplicateField key name, none⟩
+      intro u s1 hr
+      have hg := handleError_good hI (okErr_data (N := N) (.duplicateField key name) (by simp) rfl none)
+      rw [hr] at hg
+      exact ih _ _ s1 hg.1 (hg.2.strict_false hs)
+    · simp only
+      split
+      · sim_bind addPersons_sim name (splitNameList (normalizeWs parts.flatten)) e s hI hs,
+          addPersons name (splitNameList (normalizeWs parts.flatten)) e s,
+          addPersons name (splitNameList (normalizeWs parts.flatten)) e (setStrict s)
+        intro e' s1 hr
+        have hg := addPersons_good (N := N) name (splitNameList (normalizeWs parts.flatten)) e s hI
+        rw [hr] at hg
+        exact ih _ _ s1 hg.1 (hg.2.strict_false hs)
+      · exact ih _ _ s hI hs
+
+theorem processEntry_sim {N : Nat} (type : Str) (key : Option Str) (fields : List (Str × List Str))
+    (s : St) (hI : Inv N s) (hs : s.strict = false) :
+    Sim s (processEntry type key fields s) (processEntry type key fields (setStrict s)) := by
+  unfold processEntry
+  cases key with
+  | some k =>
+    simp only
+    sim_bind processFields_sim k fields []
+        { key := k, type := lower type, origType := type, fields := [], persons := [] } s hI hs,
+      processFields k fields []
+        { key := k, type := lower type, origType := type, fields := [], persons := [] } s,
+      processFields k fields []
+        { key := k, type := lower type, origType := type, fields := [], persons := [] } (setStrict s)
+    intro e s1 hr
+    have hg := processFields_good (N := N) k fields []
+      { key := k, type := lower type, origType := type, fields := [], persons := [] } s hI
+    rw [hr] at hg
+    exact addEntry_sim _ _ (hg.2.strict_false hs)
+  | none =>
+    simp only
+    have hI0 : Inv N { s with unnamed := s.unnamed + 1 } := hI
+    have hs0 : ({ s with unnamed := s.unnamed + 1 } : St).strict = false := hs
+    sim_bind (processFields_sim ("unnamed-".toList ++ natToStr s.unnamed) fields []
+        { key := "unnamed-".toList ++ natToStr s.unnamed, type := lower type, origType := type, fields := [], persons := [] }
+        { s with unnamed := s.unnamed + 1 } hI0 hs0 : Sim s _ _),
+      processFields ("unnamed-".toList ++ natToStr s.unnamed) fields []
+        { key := "unnamed-".toList ++ natToStr s.unnamed, type := lower type, origType := type, fields := [], persons := [] }
+        { s with unnamed := s.unnamed + 1 },
+      processFields ("unnamed-".toList ++ natToStr s.unnamed) fields []
+        { key := "unnamed-".toList ++ natToStr s.unnamed, type := lower type, origType := type, fields := [], persons := [] }
+        (setStrict { s with unnamed := s.unnamed + 1 })
+    intro e s1 hr
+    have hg := processFields_good (N := N) ("unnamed-".toList ++ natToStr s.unnamed) fields []
+      { key := "unnamed-".toList ++ natToStr s.unnamed, type := lower type, origType := type, fields := [], persons := [] }
+      { s with unnamed := s.unnamed + 1 } hI0
+    rw [hr] at hg
+    exact addEntry_sim _ _ (hg.2.strict_false hs0)
+
+theorem processCmd_sim {N : Nat} (c : Cmd) (s : St) (hI : Inv N s) (hs : s.strict = false) :
+    Sim s (processCmd c s) (processCmd c (setStrict s)) := by
+  unfold processCmd
+  split
+  · exact Sim.ok _ _
+  · exact Sim.ok _ _
+  · exact processEntry_sim _ _ _ s hI hs
+
+/-- `processCmd` never lets a syntax error through (they are all handled inside `parseCommand`) -/
+def NS {α : Type} : Res α → Prop
+  | .fail (.syn _) _ => False
+  | _ => True
+
+theorem handleError_ns (s : St) (e : Err) : NS (handleError s e) := by
+  unfold handleError; split <;> trivial
+
+theorem addEntry_ns (s : St) (key : Str) (e : Entry) : NS (addEntry s key e) := by
+  unfold addEntry
+  split
+  · trivial
+  · split
+    · exact handleError_ns _ _
+    · trivial
+
+theorem addPersons_ns (role : Str) (ns : List Str) (e : Entry) (s : St) : NS (addPersons role ns e s) := by
+  induction ns generalizing e s with
+  | nil => trivial
+  | cons n ns ih =>
+    unfold addPersons
+    split
+    · trivial
+    · rename_i p tooMany _
+      simp only
+      have h : NS (if tooMany then handleError s ⟨.invalidName (strip n), none⟩ else .ok () s) := by
+        split
+        · exact handleError_ns _ _
+        · trivial
+      cases hr : (if tooMany then handleError s ⟨.invalidName (strip n), none⟩ else Res.ok () s) with
+      | fail a s' =>
+        rw [hr] at h
+        cases a <;> first | exact h | trivial
+      | ok u s1 => exact ih _ s1
+
+theorem processFields_ns (key : Str) (fs : List (Str × List Str)) (seen : List Str) (e : Entry) (s : St) :
+    NS (processFields key fs seen e s) := by
+  induction fs generalizing seen e s with
+  | nil => trivial
+  | cons f fs ih =>
+    obtain ⟨name, parts⟩ := f
+    unfold processFields
+    split
+    · have h := handleError_ns s ⟨.duplicateField key name, none⟩
+      cases hr : handleError s ⟨.duplicateField key name, none⟩ with
+      | fail a s' =>
+        rw [hr] at h
+        cases a <;> first | exact h | trivial
+      | ok u s1 => exact ih _ _ s1
+    · simp only
+      split
+      · have h := addPersons_ns name (splitNameList (normalizeWs parts.flatten)) e s
+        cases hr : addPersons name (splitNameList (normalizeWs parts.flatten)) e s with
+        | fail a s' =>
+          rw [hr] at h
+          cases a <;> first | exact h | trivial
+        | ok e' s1 => exact ih _ _ s1
+      · exact ih _ _ s
+
+theorem processEntry_ns (type : Str) (key : Option Str) (fields : List (Str × List Str)) (s : St) :
+    NS (processEntry type key fields s) := by
+  unfold processEntry
+  cases key with
+  | some k =>
+    simp only
+    have h := processFields_ns k fields []
+      { key := k, type := lower type, origType := type, fields := [], persons := [] } s
+    cases hr : processFields k fields []
+      { key := k, type := lower type, origType := type, fields := [], persons := [] } s with
+    | fail a s' =>
+      rw [hr] at h
+      cases a <;> first | exact h | trivial
+    | ok e s1 => exact addEntry_ns _ _ _
+  | none =>
+    simp only
+    have h := processFields_ns ("unnamed-".toList ++ natToStr s.unnamed) fields []
+      { key := "unnamed-".toList ++ natToStr s.unnamed, type := lower type, origType := type, fields := [], persons := [] }
+      { s with unnamed := s.unnamed + 1 }
+    cases hr : processFields ("unnamed-".toList ++ natToStr s.unnamed) fields []
+      { key := "unnamed-".toList ++ natToStr s.unnamed, type := lower type, origType := type, fields := [], persons := [] }
+      { s with unnamed := s.unnamed + 1 } with
+    | fail a s' =>
+      rw [hr] at h
+      cases a <;> first | exact h | trivial
+    | ok e s1 => exact addEntry_ns _ _ _
+
+theorem processCmd_ns (c : Cmd) (s : St) : NS (processCmd c s) := by
+  unfold processCmd
+  split
+  · trivial
+  · trivial
+  · exact processEntry_ns _ _ _ s
+
+/-- the two runs of the command loop: continue mode `r`, strict mode `r'` -/
+def SimEnd (s : St) (r r' : St × Option Err) : Prop :=
+  (r.2 = none ∨ r.2 = some ⟨.nameTooDeep, none⟩) ∧
+  ((r.1.errs = s.errs ∧ r' = (setStrict r.1, r.2)) ∨
+   (∃ e tl s', r.1.errs = s.errs ++ e :: tl ∧ r' = (s', some e)))
+
+theorem SimEnd.bind' {α : Type} {s : St} {C : Res α → St × Option Err} {P : Res α → Prop}
+    (hraised : ∀ e s1, C (.fail (.raised e) s1) = (s1, some e))
+    (hC : ∀ r, P r → NR r → SimEnd r.st (C r) (C (r.mapSt setStrict))) :
+    ∀ r, P r → ∀ r', Sim s r r' → SimEnd s (C r) (C r') := by
+  intro r hP r' h
+  obtain ⟨hn, h⟩ := h
+  obtain ⟨h1, h2⟩ := hC r hP hn
+  refine ⟨h1, ?_⟩
+  rcases h with ⟨he, rfl⟩ | ⟨e, tl, s', he, rfl⟩
+  · rw [he] at h2; exact h2
+  · rw [hraised]
+    refine Or.inr ⟨e, ?_⟩
+    rcases h2 with ⟨h2, _⟩ | ⟨e2, tl2, _, h2, _⟩
+    · exact ⟨tl, s', by rw [h2, he], rfl⟩
+    · exact ⟨tl ++ e2 :: tl2, s', by rw [h2, he]; simp, rfl⟩
+
+macro "simend_bind " h:term ", " t:term ", " t':term : tactic => `(tactic| (
+  have hsim := $h
+  generalize hr : $t = r at hsim ⊢
+  generalize $t' = r' at hsim ⊢
+  revert r r'
+  refine SimEnd.bind' ?_ ?_
+  · intro _ _; rfl))
+
+theorem SimEnd.stop (s : St) (e : Err) (he : e = ⟨.nameTooDeep, none⟩) :
+    SimEnd s (s, some e) (setStrict s, some e) :=
+  ⟨Or.inr (by rw [he]), Or.inl ⟨rfl, rfl⟩⟩
+
+theorem parseLoop_sim {N : Nat} (fuel : Nat) (s : St) (hI : Inv N s) (hs : s.strict = false)
+    (hf : s.rest.length < fuel) : SimEnd s (parseLoop fuel s) (parseLoop fuel (setStrict s)) := by
+  induction fuel generalizing s with
+  | zero => omega
+  | succ fuel ih =>
+    unfold parseLoop
+    simp only
+    split
+    · exact ⟨Or.inl rfl, Or.inl ⟨rfl, rfl⟩⟩
+    · rename_i chunk rest hsk
+      obtain ⟨hI1, hL1, hlt⟩ := chunk_good hI hsk (by decide)
+      have hs1 : ({ s with rest := rest, ln := s.ln + countNl chunk } : St).strict = false := hs
+      have hfuel : ∀ s' : St, Le { s with rest := rest, ln := s.ln + countNl chunk } s' →
+          s'.rest.length < fuel := by
+        intro s' hs'
+        have h1 := hs'.1
+        have h2 : rest.length < s.rest.length := hlt
+        have h3 : ({ s with rest := rest, ln := s.ln + countNl chunk } : St).rest.length = rest.length := rfl
+        omega
+      simend_bind (parseCommand_sim (s := { s with rest := rest, ln := s.ln + countNl chunk }) hI1 hs1 : Sim s _ _),
+        parseCommand { s with rest := rest, ln := s.ln + countNl chunk },
+        parseCommand (setStrict { s with rest := rest, ln := s.ln + countNl chunk })
+      intro r hr hn
+      have hg := parseCommand_good hI1
+      rw [hr] at hg
+      cases r with
+      | ok c s2 =>
+        have hs2 : s2.strict = false := hg.2.strict_false hs1
+        simp only [Res.mapSt, Res.st]
+        simend_bind processCmd_sim c s2 hg.1 hs2, processCmd c s2, processCmd c (setStrict s2)
+        intro r2 hr2 hn2
+        have hg2 := processCmd_good c s2 hg.1
+        have hns := processCmd_ns c s2
+        rw [hr2] at hg2 hns
+        cases r2 with
+        | ok u s3 => exact ih s3 hg2.1 (hg2.2.strict_false hs2) (hfuel _ (hg.2.trans hg2.2))
+        | fail a s3 =>
+          cases a with
+          | syn e => exact hns.elim
+          | skip => exact ih s3 hg2.1 (hg2.2.1.strict_false hs2) (hfuel _ (hg.2.trans hg2.2.1))
+          | raised e => exact SimEnd.stop _ _ hn2
+      | fail a s2 =>
+        have hs2 : s2.strict = false := hg.2.1.strict_false hs1
+        cases a with
+        | syn e =>
+          simp only [Res.mapSt, Res.st]
+          simend_bind handleError_sim e hs2, handleError s2 e, handleError (setStrict s2) e
+          intro r2 hr2 hn2
+          have hg2 := handleError_good hg.1 hg.2.2
+          rw [hr2] at hg2
+          cases r2 with
+          | ok u s3 => exact ih s3 hg2.1 (hg2.2.strict_false hs2) (hfuel _ (hg.2.1.trans hg2.2))
+          | fail a s3 => simp [handleError, hs2] at hr2
+        | skip => exact ih s2 hg.1 hs2 (hfuel _ hg.2.1)
+        | raised e => exact SimEnd.stop _ _ hn
+
+theorem initSt_strict (text : Str) (wanted : Option (List Str)) (macros0 : List (Str × Str))
+    (roles : List Str) :
+    initSt text true wanted macros0 roles = setStrict (initSt text false wanted macros0 roles) := rfl
+
+theorem parseBib_sim (text : Str) (wanted : Option (List Str)) (macros0 : List (Str × Str))
+    (roles : List Str) :
+    SimEnd (initSt text false wanted macros0 roles) (parseBib text false wanted macros0 roles)
+      (parseBib text true wanted macros0 roles) := by
+  rw [parseBib_eq, parseBib_eq, initSt_strict]
+  exact parseLoop_sim _ _ (initSt_inv ..) rfl (Nat.lt_succ_self _)
+
+/-! ## §5 prefix stability -/
+
+/-- The reader state after the first `k` commands (`@…`) of the text have been read and
+processed: the command loop stopped after `k` rounds. -/
+def afterCommands (k : Nat) (text : Str) (strict : Bool) (wanted : Option (List Str))
+    (macros0 : List (Str × Str)) (roles : List Str) : St :=
+  (parseLoop k (initSt text strict wanted macros0 roles)).1
+
+/-- stopping the loop early leaves a state that the full run only extends -/
+theorem parseLoop_prefix {N : Nat} (k m : Nat) (s : St) (hI : Inv N s) (hf : s.rest.length < m) :
+    Le (parseLoop k s).1 (parseLoop m s).1 := by
+  induction k generalizing m s with
+  | zero => exact (parseLoop_good m s hI hf).2.1
+  | succ k ih =>
+    cases m with
+    | zero => omega
+    | succ m =>
+      unfold parseLoop
+      split
+      · exact Le.refl _
+      · rename_i chunk rest hsk
+        obtain ⟨hI1, hL1, hlt⟩ := chunk_good hI hsk (by decide)
+        simp only
+        have hfuel : ∀ s' : St, Le { s with rest := rest, ln := s.ln + countNl chunk } s' →
+            s'.rest.length < m := by
+          intro s' hs'
+          have h1 := hs'.1
+          have h2 : rest.length < s.rest.length := hlt
+          have h3 : ({ s with rest := rest, ln := s.ln + countNl chunk } : St).rest.length = rest.length := rfl
+          omega
+        have hg := parseCommand_good hI1
+        cases hr : parseCommand { s with rest := rest, ln := s.ln + countNl chunk } with
+        | ok c s2 =>
+          rw [hr] at hg
+          simp only
+          have hg2 := processCmd_good c s2 hg.1
+          cases hr2 : processCmd c s2 with
+          | ok u s3 =>
+            rw [hr2] at hg2
+            exact ih m s3 hg2.1 (hfuel _ (hg.2.trans hg2.2))
+          | fail a s3 =>
+            rw [hr2] at hg2
+            cases a with
+            | syn e => exact Le.refl _
+            | raised e => exact Le.refl _
+            | skip => exact ih m s3 hg2.1 (hfuel _ (hg.2.trans hg2.2.1))
+        | fail a s2 =>
+          rw [hr] at hg
+          cases a with
+          | syn e =>
+            simp only
+            have hg2 := handleError_good hg.1 hg.2.2
+            cases hr2 : handleError s2 e with
+            | ok u s3 =>
+              rw [hr2] at hg2
+              exact ih m s3 hg2.1 (hfuel _ (hg.2.1.trans hg2.2))
+            | fail a s3 =>
+              cases a with
+              | raised e' => exact Le.refl _
+              | syn e' => exact Le.refl _
+              | skip => exact Le.refl _
+          | skip => exact ih m s2 hg.1 (hfuel _ hg.2.1)
+          | raised e => exact Le.refl _
 
 end Pybtex.Bib
